@@ -934,6 +934,20 @@ func c01API(c *Ctx, prop string) {
 			misses = append(misses, miss{"GET", tc.path[:i] + "/" + tc.path[i:]}) // "//" before the last segment
 		}
 		misses = append(misses, miss{"GET", "/api1/" + tc.path[len("/api1"):]}) // "//" after the first segment
+		// every segment in turn replaced by the empty segment (a trailing "/" is dropped by the front: add one more)
+		segs := strings.Split(strings.TrimPrefix(tc.path, "/"), "/")
+		for k := 1; k < len(segs); k++ {
+			cp := append([]string(nil), segs...)
+			cp[k] = ""
+			if v := strings.LastIndex(segs[k], ":"); v >= 0 {
+				cp[k] = segs[k][v:] // keep the verb: "/:go"
+			}
+			p := "/" + strings.Join(cp, "/")
+			if k == len(segs)-1 && cp[k] == "" {
+				p += "/"
+			}
+			misses = append(misses, miss{"GET", p})
+		}
 	}
 	for _, ms := range misses {
 		p := ms.path
